@@ -76,6 +76,9 @@ def step (st : St) (ws : List String) (impl : String) : St × Ans :=
              s := if st.t.root.abs.isEmpty then "nodes=1 pairs=" else "=" })
   | ["conc", _] => (st, { m := "same" })
   | ["concshare", _] => (st, { m := "valid" })
+  -- a pair owned by one caller: whatever other callers do concurrently (all under the one RWMutex),
+  -- its subscribe is visible to its next lookup and the index ends empty
+  | ["nested", _] => (st, { m := "ok" })
   | _ => (st, bad)
 
 end Driver.C01
